@@ -135,7 +135,7 @@ RULES = {
            + GRID + "; non-trivial = case containing a message whose seal needs its zero word(s) (top words of upper and point coincide); "
            "label deep_region counts final states in which one zero word is not enough (State wider than two Words)",
     "C12": "case = (config row, message of <=80 / <=2000 symbols), bound W*num_words <= sum(I_i + log2(1+2^-(S-W-P_i))) + S + 2W "
-           "and num_words <= n + S/W + 2 checked at every prefix for both coders (float slack 1e-9*n + 1e-6 bits); the range coder's size is taken from num_words() or, in half of the cases, counted on the get_compressed() view of the live encoder; " + GRID +
+           "and num_words <= n + S/W + 2 checked at every prefix for both coders (float slack 1e-9*n + 1e-6 bits); the occupied size is taken from num_words(), from num_bits(), or (range coder) counted on the get_compressed() view of the live encoder; " + GRID +
            "; non-trivial = >=1 flushed word / renormalisation",
     "C13": "case = (config row, from_binary | from_compressed (last word forced non-zero), word data 0..24(+S/W) words (quick) / 0..200 "
            "(thorough), script of <=40 / <=400 steps from {decode(model), change_precision(P')}, decoding past the end of the data "
